@@ -9,3 +9,126 @@ Proof. vm_compute. reflexivity. Qed.
 Example c09_asfound_refuted :
   map d_url (o_reqs (serve asfound (s "D") [] (mkA [] (FRespond 200 (s "ok") true)) c09_witness true)) = [s "/a"].
 Proof. vm_compute. reflexivity. Qed.
+
+(* ==================================================================================================
+   BODY SIDE of C09 (repaired tree): wherever the application stops reading the body — before the
+   first read, after any sequence of reads with any buffer sizes, after end-of-stream — dropping
+   the request leaves the connection exactly at `tail`, the first byte after the body: same bytes,
+   same closed-flag. Nothing of the body is left to be parsed as a request and nothing of `tail` is
+   consumed. Vocabulary: see Props/C03.v. Proofs: Http/C03Facts.v and the files it imports. *)
+From TH Require Import Http.BodyFacts Http.ChunkedFacts Http.ChunkedReader Http.C03Facts.
+
+(* Content-Length body through the length-limited reader, all of it pending *)
+Theorem c09_limited_drop :
+  forall body tail e ns al ps en r' st' al', all_pos ns ->
+    reads fixed ns (BLimited (len body)) (mkS (body ++ tail) e) al = (ps, en, r', st', al') ->
+    fst (body_drop fixed r' st' al') = mkS tail e.
+Proof. exact limited_drop. Qed.
+Print Assumptions c09_limited_drop.
+
+(* the connection holds fewer bytes than the body still needs (the client went away, or has not
+   sent them yet): everything pending is consumed — none of it can be taken for a request *)
+Theorem c09_limited_drop_short :
+  forall x e n al, (len x < n)%N -> fst (body_drop fixed (BLimited n) (mkS x e) al) = mkS [] e.
+Proof. exact limited_drop_short. Qed.
+Print Assumptions c09_limited_drop_short.
+
+(* small Content-Length body: it was taken off the connection before the request was delivered;
+   neither reading nor dropping touches the connection *)
+Theorem c09_buffered_drop :
+  forall body st ns al ps en r' st' al', all_pos ns ->
+    reads fixed ns (BBuffered body) st al = (ps, en, r', st', al') ->
+    body_drop fixed r' st' al' = (st, al).
+Proof.
+  intros body st ns al ps en r' st' al' Hpos E.
+  destruct (buffered_reads _ _ _ _ _ _ _ _ _ Hpos E) as (-> & -> & rest & _ & -> & _). reflexivity.
+Qed.
+Print Assumptions c09_buffered_drop.
+
+(* chunked body, any chunking with accepted size lines: the drain-on-drop of repair D4 reads to
+   the end of the body and no further; the fuel |pending|+1 of the model suffices *)
+Theorem c09_chunked_drop :
+  forall chs last tail e, Forall chunk_ok chs -> size_line_ok last 0 ->
+  forall ns al ps en r' st' al', all_pos ns ->
+    reads fixed ns (BChunked None false) (mkS (enc chs last tail) e) al = (ps, en, r', st', al') ->
+    fst (body_drop fixed r' st' al') = mkS tail e.
+Proof. exact chunked_drop. Qed.
+Print Assumptions c09_chunked_drop.
+
+(* the same for what serve_loop actually runs: all read loops of a handler (Serve.do_reads, each
+   "up to m bytes with an n-byte buffer", n > 0, with the fuel do_reads computes), then drop.
+   The handler obtained a prefix of the body: exactly the number of bytes it asked for in total,
+   or the whole body and end-of-stream if it asked for more. *)
+Theorem c09_limited_do_reads :
+  forall body tail e rs al acc, bufs_pos rs ->
+    exists acc' en got rest r',
+      do_reads fixed rs (BLimited (len body)) (mkS (body ++ tail) e) al acc EndCount = (acc', en, r', mkS (rest ++ tail) e, al) /\
+      pieces_bytes acc' = pieces_bytes acc ++ got /\ body = got ++ rest /\
+      ((en = EndCount /\ len got = sum_m rs) \/ (en = EndEof /\ rest = [] /\ (len body < sum_m rs)%N)) /\
+      fst (body_drop fixed r' (mkS (rest ++ tail) e) al) = mkS tail e.
+Proof. exact limited_do_reads. Qed.
+Print Assumptions c09_limited_do_reads.
+
+Theorem c09_buffered_do_reads :
+  forall body st rs al acc, bufs_pos rs ->
+    exists acc' en got rest,
+      do_reads fixed rs (BBuffered body) st al acc EndCount = (acc', en, BBuffered rest, st, al) /\
+      pieces_bytes acc' = pieces_bytes acc ++ got /\ body = got ++ rest /\
+      ((en = EndCount /\ len got = sum_m rs) \/ (en = EndEof /\ rest = [] /\ (len body < sum_m rs)%N)).
+Proof. exact buffered_do_reads. Qed.
+Print Assumptions c09_buffered_do_reads.
+
+Theorem c09_chunked_do_reads :
+  forall chs last tail e rs al acc, Forall chunk_ok chs -> size_line_ok last 0 -> bufs_pos rs ->
+    exists acc' en got rest r' st',
+      do_reads fixed rs (BChunked None false) (mkS (enc chs last tail) e) al acc EndCount = (acc', en, r', st', al) /\
+      pieces_bytes acc' = pieces_bytes acc ++ got /\ payload chs = got ++ rest /\
+      ((en = EndCount /\ len got = sum_m rs) \/
+       (en = EndEof /\ rest = [] /\ (len (payload chs) < sum_m rs)%N /\ st' = mkS tail e /\ stable r' st')) /\
+      fst (body_drop fixed r' st' al) = mkS tail e.
+Proof. exact chunked_do_reads. Qed.
+Print Assumptions c09_chunked_do_reads.
+
+(* ---- non-vacuity: bodies dropped unread, half read, fully read ---- *)
+Definition c09_chunks : list chunk :=
+  [ (s "5", s "hello"); (s " 000A ", s ", chunked "); (s "+6;name=value", s "world!") ].
+Definition c09_tail : bytes := s "GET /b HTTP/1.1" ++ CRLF ++ CRLF.
+Definition c09_chunked_wire : bytes := enc c09_chunks (s "0") c09_tail.
+
+Example c09_example_chunked_drop_unread :
+  body_drop fixed (BChunked None false) (mkS c09_chunked_wire false) [] = (mkS c09_tail false, []).
+Proof. vm_compute. reflexivity. Qed.
+Example c09_example_chunked_drop_partial :
+  let '(ps, en, r, st, al) := reads fixed [3; 4]%nat (BChunked None false) (mkS c09_chunked_wire false) [] in
+  (ps, en, body_drop fixed r st al) = ([s "hel"; s "lo"], None, (mkS c09_tail false, [])).
+Proof. vm_compute. reflexivity. Qed.
+Example c09_example_chunked_drop_inside_chunk :
+  let '(ps, en, r, st, al) := reads fixed [3]%nat (BChunked None false) (mkS c09_chunked_wire false) [] in
+  (ps, en, r, body_drop fixed r st al) = ([s "hel"], None, BChunked (Some 2%N) false, (mkS c09_tail false, [])).
+Proof. vm_compute. reflexivity. Qed.
+(* the tree as found does not drain: the rest of the body is left on the connection (D4) *)
+Example c09_example_chunked_asfound :
+  body_drop asfound (BChunked None false) (mkS c09_chunked_wire false) [] = (mkS c09_chunked_wire false, []).
+Proof. vm_compute. reflexivity. Qed.
+Example c09_example_limited_drop_partial :
+  let '(ps, en, r, st, al) := reads fixed [2; 1]%nat (BLimited 2000) (mkS (repeat "x"%char 2000 ++ c09_tail) false) [] in
+  (List.length (List.concat ps), en, fst (body_drop fixed r st al)) = (3%nat, None, mkS c09_tail false).
+Proof. vm_compute. reflexivity. Qed.
+Example c09_example_limited_drop_short :
+  fst (body_drop fixed (BLimited 2000) (mkS (s "only these") true) []) = mkS [] true.
+Proof. vm_compute. reflexivity. Qed.
+
+(* LIMIT of the statements above (and of the crate): `enc` has no trailer section, because the
+   decoder of chunked_transfer 1.5.0 expects CRLF directly after the last-chunk line. On a body
+   WITH trailer fields (RFC 7230 4.1.2) it consumes one byte, fails, the error latches the reader
+   (no drain), and the rest of the trailer section is parsed as the next request — here the
+   trailer line "XGET /evil HTTP/1.1" is delivered as a request GET /evil. *)
+Definition c09_trailer_witness : bytes :=
+  s "POST /a HTTP/1.1" ++ CRLF ++ s "Transfer-Encoding: chunked" ++ CRLF ++ CRLF ++
+  s "5" ++ CRLF ++ s "hello" ++ CRLF ++ s "0" ++ CRLF ++ s "XGET /evil HTTP/1.1" ++ CRLF ++ CRLF ++
+  s "GET /b HTTP/1.1" ++ CRLF ++ CRLF.
+Example c09_example_trailers_unsupported :
+  map (fun d => (d_url d, d_read d, d_end d))
+      (o_reqs (serve fixed (s "D") [] (mkA [(ALL, 1024%nat)] (FRespond 200 (s "ok") true)) c09_trailer_witness true))
+  = [(s "/a", s "hello", EndErr); (s "/evil", [], EndEof); (s "/b", [], EndEof)].
+Proof. vm_compute. reflexivity. Qed.
